@@ -367,15 +367,17 @@ theorem lookup_of_mem_nodup : ∀ {es : List (Name × List τ)} {n : Name} {ts :
       exact lookup_of_mem_nodup hnd.2 h
 
 theorem taken_true {c : Cfg} {t : Table τ} {n : Name} (h : taken c t n = true) :
-    n ∈ t.names ++ c.reserved := by
+    n ∈ t.names ++ c.reserved ++ reservedWords := by
   simp only [taken, Bool.or_eq_true, List.contains_iff_mem] at h
-  simpa using h
+  simp only [List.mem_append]
+  exact h
 
 theorem taken_false {c : Cfg} {t : Table τ} {n : Name} (h : taken c t n = false) :
-    n ∉ t.names ∧ n ∉ c.reserved := by
+    n ∉ t.names ∧ n ∉ c.reserved ∧ n ∉ reservedWords := by
   simp only [taken, Bool.or_eq_false_iff] at h
-  constructor
-  · intro hm; have := List.contains_iff_mem.mpr hm; rw [h.1] at this; exact Bool.noConfusion this
+  refine ⟨?_, ?_, ?_⟩
+  · intro hm; have := List.contains_iff_mem.mpr hm; rw [h.1.1] at this; exact Bool.noConfusion this
+  · intro hm; have := List.contains_iff_mem.mpr hm; rw [h.1.2] at this; exact Bool.noConfusion this
   · intro hm; have := List.contains_iff_mem.mpr hm; rw [h.2] at this; exact Bool.noConfusion this
 
 /-- `newName` returns the first candidate that is neither a registered nor a reserved name -/
@@ -383,8 +385,8 @@ theorem newName_spec (c : Cfg) (t : Table τ) (typs : List τ) :
     ∃ k, newName R c t typs = seqAt c.pfx (hintOf R typs) k ∧
       taken c t (seqAt c.pfx (hintOf R typs) k) = false ∧
       ∀ j, j < k → taken c t (seqAt c.pfx (hintOf R typs) j) = true := by
-  obtain ⟨k, _, h1, h2, h3⟩ := newNameWith_spec (taken c t) (t.names ++ c.reserved) (fun n h => taken_true h)
-    (t.entries.length + c.reserved.length) (by simp [Table.names]) c.pfx (hintOf R typs)
+  obtain ⟨k, _, h1, h2, h3⟩ := newNameWith_spec (taken c t) (t.names ++ c.reserved ++ reservedWords) (fun n h => taken_true h)
+    (t.entries.length + c.reserved.length + reservedWords.length) (by simp [Table.names]; omega) c.pfx (hintOf R typs)
   exact ⟨k, h1, h2, h3⟩
 
 /-! ### the table invariant and the three outcomes of `SetFuncName` on a clash-free / clashing table -/
@@ -527,7 +529,7 @@ theorem setFuncName_sound' (c : Cfg) (t : Table τ) (fn : Name) (typs : List τ)
           obtain ⟨k, hk, hfree, _⟩ := newName_spec R c t typs
           rw [← hk] at hfree
           refine ⟨⟨typs, by simp [Table.insert], Or.inl rfl⟩, fun e he => by simp [Table.insert, he], ?_,
-            Or.inr (Or.inr (taken_false hfree))⟩
+            Or.inr (Or.inr ⟨(taken_false hfree).1, (taken_false hfree).2.1⟩)⟩
           intro e he
           simp only [Table.insert, List.mem_append, List.mem_singleton] at he
           rcases he with he | he
@@ -576,7 +578,7 @@ theorem hnames_of_set {c : Cfg} {t : Table τ} {fn : Name} {typs : List τ} {n :
           simp only [Table.insert, List.mem_append, List.mem_singleton] at he
           rcases he with he | he
           · exact Or.inl he
-          · exact Or.inr (Or.inr (by rw [he]; exact (taken_false hfree).2))
+          · exact Or.inr (Or.inr (by rw [he]; exact (taken_false hfree).2.1))
         · cases hs
     | none =>
       simp only [hl] at hs
@@ -1453,6 +1455,8 @@ structure Renaming (g : Name → Name) (c c' : Cfg) (t : Table τ) (fn : Name) (
   inj : ∀ a b, (a ∈ t.names ∨ a = fn ∨ ∃ k, a = seqAt c.pfx name k) →
     (b ∈ t.names ∨ b = fn ∨ ∃ k, b = seqAt c.pfx name k) → g a = g b → a = b
   reserved : ∀ k, seqAt c.pfx name k ∈ c.reserved ↔ seqAt c'.pfx name k ∈ c'.reserved
+  /-- candidates are keywords / predeclared identifiers under both prefixes or under neither -/
+  words : ∀ k, seqAt c.pfx name k ∈ reservedWords ↔ seqAt c'.pfx name k ∈ reservedWords
 
 theorem taken_renamed {g : Name → Name} {c c' : Cfg} {t : Table τ} {fn : Name} {name : List Letter}
     (h : Renaming g c c' t fn name) (k : Nat) :
@@ -1471,7 +1475,11 @@ theorem taken_renamed {g : Name → Name} {c c' : Cfg} {t : Table τ} {fn : Name
     apply Bool.eq_iff_iff.mpr
     simp only [List.contains_iff_mem]
     exact (h.reserved k).symm
-  rw [h1, h2]
+  have h3 : reservedWords.contains (seqAt c'.pfx name k) = reservedWords.contains (seqAt c.pfx name k) := by
+    apply Bool.eq_iff_iff.mpr
+    simp only [List.contains_iff_mem]
+    exact (h.words k).symm
+  rw [h1, h2, h3]
 
 /-- the least index of a non-taken candidate is determined by the taken-predicate on the candidates -/
 theorem least_unique {p : Nat → Bool} {k k' : Nat} (hk : p k = false) (hlt : ∀ j, j < k → p j = true)
@@ -1550,7 +1558,8 @@ all names in play start with the old prefix, and the reserved sets correspond on
 theorem renaming_of_prefix {P P' : Name} {c c' : Cfg} {t : Table τ} {fn : Name} (name : List Letter)
     (hc : c.pfx = P) (hc' : c'.pfx = P') (hflags : c'.autoname = c.autoname ∧ c'.dedup = c.dedup)
     (hnames : ∀ n ∈ t.names, ∃ s, n = P ++ s) (hfn : ∃ s, fn = P ++ s)
-    (hres : ∀ s, P ++ s ∈ c.reserved ↔ P' ++ s ∈ c'.reserved) :
+    (hres : ∀ s, P ++ s ∈ c.reserved ↔ P' ++ s ∈ c'.reserved)
+    (hwords : ∀ s, P ++ s ∈ reservedWords ↔ P' ++ s ∈ reservedWords) :
     Renaming (rename P P') c c' t fn name := by
   have hseq : ∀ (Q : Name) k, ∃ s, (∀ Q' : Name, seqAt Q' name k = Q' ++ s) ∧ seqAt Q name k = Q ++ s := by
     intro Q k
@@ -1561,7 +1570,7 @@ theorem renaming_of_prefix {P P' : Name} {c c' : Cfg} {t : Table τ} {fn : Name}
       by_cases hk : k > name.length
       · exact ⟨underscore :: (flat name ++ itoa k), fun Q' => by simp only [hk, if_true], by simp only [hk, if_true]⟩
       · exact ⟨underscore :: flat (name.take k), fun Q' => by simp only [hk, if_false], by simp only [hk, if_false]⟩
-  refine ⟨hflags, ?_, ?_, ?_⟩
+  refine ⟨hflags, ?_, ?_, ?_, ?_⟩
   · intro k
     obtain ⟨s, hs, _⟩ := hseq P k
     rw [hc, hc', hs P, hs P', rename_prefix]
@@ -1581,6 +1590,10 @@ theorem renaming_of_prefix {P P' : Name} {c c' : Cfg} {t : Table τ} {fn : Name}
     obtain ⟨s, hs, _⟩ := hseq P k
     rw [hc, hc', hs P, hs P']
     exact hres s
+  · intro k
+    obtain ⟨s, hs, _⟩ := hseq P k
+    rw [hc, hc', hs P, hs P']
+    exact hwords s
 
 /-! ### renaming a whole registration (C12) -/
 
@@ -1616,6 +1629,9 @@ structure PrefixChange (f f' : Flags) (ps ps' : List (Plugin τ)) : Prop where
   /-- freshness: reservedness of names with the old / new prefix of a plugin corresponds -/
   fresh : ∀ (i : Nat) (p p' : Plugin τ), ps[i]? = some p → ps'[i]? = some p' →
     ∀ s, p.pfx ++ s ∈ f.reserved ↔ p'.pfx ++ s ∈ f'.reserved
+  /-- a name with the old prefix is a keyword / predeclared identifier iff its image is (e.g. neither ever is) -/
+  words : ∀ (i : Nat) (p p' : Plugin τ), ps[i]? = some p → ps'[i]? = some p' →
+    ∀ s, p.pfx ++ s ∈ reservedWords ↔ p'.pfx ++ s ∈ reservedWords
   nonempty : (∀ p ∈ ps, p.pfx ≠ []) ∧ (∀ p ∈ ps', p.pfx ≠ [])
 
 /-- every table holds only names that start with its plugin's prefix -/
@@ -1721,7 +1737,7 @@ theorem pkgAdd_renamed {f f' : Flags} {ps ps' : List (Plugin τ)} (hch : PrefixC
       rw [pkgAdd_handled R f' (mapT ps ps' T) hh' hp' (by rw [hargs, hacc]; exact hac)]
       have hren := renaming_of_prefix (c := f.cfg p.pfx) (c' := f'.cfg p'.pfx) (t := T i) (fn := c.name)
         (hintOf R c.args) rfl rfl (by simpa [Flags.cfg] using hch.flags) (hpre i p hp) ⟨s, hs⟩
-        (by simpa [Flags.cfg] using hch.fresh i p p' hp hp')
+        (by simpa [Flags.cfg] using hch.fresh i p p' hp hp') (hch.words i p p' hp hp')
       have hset : setFuncName R (f'.cfg p'.pfx) ((T i).mapNames (rename p.pfx p'.pfx)) (rename p.pfx p'.pfx c.name) c.args =
           match setFuncName R (f.cfg p.pfx) (T i) c.name c.args with
           | .ok (n, t') => .ok (rename p.pfx p'.pfx n, t'.mapNames (rename p.pfx p'.pfx))
